@@ -127,6 +127,22 @@ Section Facts.
   Notation to_s := (SerialHugr.to_serial enc ndp md_is_nil).
   Notation from_s := (SerialHugr.from_serial dec ndp md_nil).
 
+  (* the nodes of the document are what `self[node]._to_serial(Node(rekey[parent]))` returns: the serial class of the
+     operation with the renumbered parent (the root: itself) in its parent field -- the device "enc = encoding with the
+     parent slot at 0, parent kept beside it" loses nothing *)
+  Lemma concrete_doc_nodes (h : hugr) s : guard h = true -> to_s h = Some s ->
+    forall k i, nth_error (lives h) k = Some i ->
+      exists n, get_node h i = Some n /\
+        option_map (sop_of_snode SH) (nth_error (s_nodes s) k) =
+          Some (op_to_serial H SH h_enc (SerialHugr.n_op n)
+                  (N.of_nat (rank h (match SerialHugr.n_parent n with Some p => p | None => i end)))).
+  Proof.
+    intros G Hs k i Hk.
+    destruct (to_serial_doc (op H) (sop SH) md enc ndp md_nil md_is_nil _ _ _ (c_ndp_spec H SH h_enc) h s G Hs) as [_ Dn _ _].
+    destruct (Dn k i Hk) as [n [Hn Hy]]. exists n. split; [exact Hn|]. rewrite Hy. cbn [option_map].
+    unfold sop_of_snode, snode_of, parent_or_self. cbn [s_op s_parent]. now rewrite <- to_serial_set_parent.
+  Qed.
+
   Theorem roundtrip_concrete (h : hugr) : guard h = true -> OpsIn OK h ->
     exists s h', to_s h = Some s /\ from_s s = Some h' /\ to_s h' = Some s /\ Iso enc h h' /\
       (forall i n, get_node h i = Some n ->
